@@ -813,7 +813,19 @@ func (c *SpecCtx) call(x *ECall) Val {
 	case "owned":
 		// owned(x): the object x points to (or the backing array of slice x) is exclusively owned by this thread
 		v := arg(0)
-		f := env.fieldFnNamed("gfld_any_owned")
+		var ds []string
+		for _, f := range env.ownedFields() {
+			ds = append(ds, fmt.Sprintf("(select %s (%s %s))", c.p.heapIn(c.st, env.memHeap(tBool)), f, refOf(c, v)))
+		}
+		return Val{T: "(or " + strings.Join(ds, " ") + ")", Ty: tBool}
+	case "ownedIn":
+		// ownedIn(x, pool): x (or the backing array of slice x) is checked out from that pool by this thread
+		v := arg(0)
+		id, ok := x.Args[1].(*EIdent)
+		if !ok {
+			c.fail("ownedIn(x, poolName)")
+		}
+		f := env.fieldFnNamed("gfld_any_owned_" + sanitize(id.Name))
 		return Val{T: fmt.Sprintf("(select %s (%s %s))", c.p.heapIn(c.st, env.memHeap(tBool)), f, refOf(c, v)), Ty: tBool}
 	case "pooled":
 		// pooled(x): x (or the backing array of slice x) belongs to a sync.Pool's population
@@ -1052,6 +1064,14 @@ func (c *SpecCtx) locs(e Expr) []Loc {
 			id, ok := call.Args[0].(*EIdent)
 			if !ok {
 				c.fail("ghostfields(name) expected")
+			}
+			if id.Name == "owned" {
+				// every ownership marker
+				var out []Loc
+				for _, f := range env.ownedFields() {
+					out = append(out, Loc{Heap: env.memHeap(tBool), AllTag: env.fieldTag[f]})
+				}
+				return out
 			}
 			for _, g := range env.specs.GFields {
 				if g.Field == id.Name {
